@@ -386,6 +386,10 @@ def do_record(ctx, backend, stem, op, header=None, use_default_header=False):
         status, exc = "ok", None
     except InjectedInterrupt as e:
         status, exc = "fault", e
+        if tracer is not None and tracer.where_file != "backend.py":
+            # the interrupt landed inside a source request: the antenna's streams may be unevenly advanced, a state
+            # the request log does not describe
+            ctx.hit("interrupt_inside_source_request")
     except (OSError, InjectedCallbackError) as e:
         injected = isinstance(e, InjectedCallbackError) or "injected" in str(e)
         status, exc = ("fault" if injected else "error"), e
